@@ -114,4 +114,8 @@ def featureNamesOut (s : S) (w : Nat × Nat) (fitEp : Bool) (given : Option (Lis
     else if fitEp && !e then namesTf.drop 1
     else namesTf
 
+/-- `_validate_feature_names`: a later call is accepted iff the names extracted from its input (none for an array,
+the column names of a DataFrame) are the names captured at fit time — the same names in the same positions -/
+def namesAccepted (fitNames callNames : Option (List String)) : Bool := fitNames == callNames
+
 end Pk
